@@ -42,6 +42,28 @@ def _expanded_text(e: ast.AST, mod) -> str:
     return text(ast.fix_missing_locations(Sub().visit(copy.deepcopy(e))))
 
 
+def _helper_bodies(ctx: Ctx, unit: FuncUnit, e: ast.AST, depth: int = 0) -> str:
+    """Text of the expressions that predicate helpers called in a guard stand for (`self._is_x(n)` -> its single
+    return expression), so that a condition moved into a helper reads like the condition itself."""
+    from .. import sym
+    if depth > 2:
+        return ''
+    out = []
+    env = FuncEnv.of(ctx.p, unit)
+    for c in ast.walk(e):
+        if isinstance(c, ast.Call):
+            try:
+                tg = env.resolve_call(c)
+            except Exception:
+                continue
+            for t in tg:
+                if t[0] == 'func':
+                    ret = sym.simple_return(t[1])
+                    if ret is not None:
+                        out.append(f' [= {_expanded_text(ret, t[1].module)}{_helper_bodies(ctx, t[1], ret, depth + 1)}]')
+    return ''.join(out)
+
+
 def _load_tuple_consts(mod) -> None:
     """NAME = (ClassA, ClassB, ...) at module level, assigned once: usable wherever the display itself is."""
     _TUPLE_CONSTS.clear()
@@ -649,10 +671,24 @@ def rule_node_map_and_validation(ctx: Ctx, out: Collector) -> None:
     build = b.methods['build']
     bsrc = unparse(build.node)
     cons = f'{build.module.name}::{build.qualname}::returns copies of graph and node map'
-    if '.copy()' in bsrc and 'deepcopy(' in bsrc:
-        out.ok('BD-6', cons, ctx.p.loc(build, build.node), 'graph=self._dag.copy(), node_map=copy.deepcopy(self._node_map)')
+    from .ex import interpret_build
+    from ..absint import AObj as _AObj
+    shared = set()
+    seen_dag = False
+    for single in (False, True):
+        for res, builder_obj, graph_obj, node_map_obj, calls in interpret_build(ctx, False, (), single):
+            if not isinstance(res, _AObj):
+                raise AnalysisError('build() does not return a DAG object (BD-6 anchor vanished)')
+            seen_dag = True
+            for k, v in res.attrs.items():
+                if v is graph_obj:
+                    shared.add(f'{k} is the builder\'s own graph')
+                if v is node_map_obj:
+                    shared.add(f'{k} is the builder\'s own node map')
+    if seen_dag and not shared:
+        out.ok('BD-6', cons, ctx.p.loc(build, build.node), 'neither the graph nor the node map of the returned DAG is the builder\'s own object')
     else:
-        out.bad('BD-6', cons, ctx.p.loc(build, build.node), 'the DAG returned by build shares the builder\'s graph / node map')
+        out.bad('BD-6', cons, ctx.p.loc(build, build.node), f'the DAG returned by build shares the builder\'s graph / node map ({"; ".join(sorted(shared))})')
     cons = base + '::every popped node is added to the node map'
     mapped_cur = any(isinstance(s, ast.Expr) and isinstance(s.value, ast.Call) and 'map' in unparse(s.value.func) and cur in unparse(s.value)
                      for s in stmts)
@@ -663,12 +699,13 @@ def rule_node_map_and_validation(ctx: Ctx, out: Collector) -> None:
                                                    'resolved at run time')
     # ---- VL-4
     cons = f'{build.module.name}::{build.qualname}::graph validation precedes the construction of the DAG'
-    body = build.node.body
-    idx_v = next((i for i, s in enumerate(body) if isinstance(s, ast.Expr) and isinstance(s.value, ast.Call)
-                  and 'validate' in unparse(s.value.func)), None)
-    idx_r = next((i for i, s in enumerate(body) if isinstance(s, ast.Return)), None)
-    if idx_v is not None and idx_r is not None and idx_v < idx_r:
-        out.ok('VL-4', cons, ctx.p.loc(build, body[idx_v]), '_validate_graph() is a top-level statement before `return DAG(...)`')
+    validated_always = True
+    for single in (False, True):
+        for res, builder_obj, graph_obj, node_map_obj, calls in interpret_build(ctx, False, (), single):
+            if not any('validate' in c and 'node' not in c for c in calls):
+                validated_always = False
+    if validated_always:
+        out.ok('VL-4', cons, ctx.p.loc(build, build.node), 'the graph validation runs on every path of build() before the DAG is returned')
     else:
         out.bad('VL-4', cons, ctx.p.loc(build, build.node), 'the recurrent-subgraph validation does not dominate the construction of the '
                                                             'DAG: invalid recurrent declarations are built', props={'C16'})
@@ -878,7 +915,7 @@ def rule_rejections(ctx: Ctx, out: Collector) -> None:
         details = []
         for u, r in sites:
             gs = guards(u.node, r)
-            gtxt = ' && '.join(('' if pol else 'not ') + _expanded_text(e, u.module) for e, pol in gs)
+            gtxt = ' && '.join(('' if pol else 'not ') + _expanded_text(e, u.module) + _helper_bodies(ctx, u, e) for e, pol in gs)
             const_false = any((isinstance(e, ast.Constant) and bool(e.value) != pol) for e, pol in gs)
             missing = [t for t in tokens if t not in gtxt]
             details.append(f'{u.qualname}: {gtxt or "<unconditional>"}')
